@@ -47,7 +47,7 @@ def main(tier: str) -> int:
 
     from .. import readergraph as rg  # noqa: PLC0415
 
-    graph_unis = ["graphs-datatype", "triples-names"] + (["quads-prefix"] if tier == "thorough" else [])
+    graph_unis = ["graphs-datatype", "triples-names", "triples-star-s", "triples-star-o"] + (["quads-prefix"] if tier == "thorough" else [])
     with ThreadPoolExecutor(12) as ex:
         graphs_f = [ex.submit(rg.explore, u) for u in graph_unis]
         sims = list(ex.map(sim, jobs))
@@ -61,7 +61,7 @@ def main(tier: str) -> int:
         except AttributeError as ex:
             run.model_drift(f'state projection of Decoder unavailable ({ex}): reader state-graph comparison skipped')
             break
-        for integ_ in ("generic", "rdflib"):
+        for integ_ in (("generic",) if u in rg.RDF_STAR else ("generic", "rdflib")):
             st = rg.walk(u, edges, faults_at, integ=integ_,
                          on_violation=lambda clause, what, rp, u=u, integ_=integ_: (run.violation(
                              {"clause": clause, "binding": "reader-state-graph", "universe": u, "integ": integ_, "class": rp.get("class", "")}, what, rp)
